@@ -186,6 +186,15 @@ ADDENDA8 = {
  "C14": "K6.verdict-per-element: no truthiness verdict is written through a reference and read back by the same code; reaching the iteration where an error is required is a violation.",
  "C15": "K3.elementwise: the container cases of the membership equality on decision cases (length equality only, false on different lengths, all over un-negated recursion, zip / entry walks only under equal lengths); K3.exact-numbers over the reach of in (no int/float cast, as_i64 never without as_u64).",
 }
+ADDENDA9 = {
+ "C02": "K5 (error discipline of the parse chain) is read before K3 and includes an error discarded by a pattern.",
+ "C03": "K3.every-parser-checks: the parser of every table reaches the length check (call-graph must-reach); K5.error-to-success also for an error discarded by a pattern.",
+ "C06": "Emptiness of a transformed (trimmed, re-cased, filtered) string is another test than the table's.",
+ "C15": "K3.missing-key: a miss replaced by a stand-in value that is then compared is a violation.",
+ "C19": "K1.stateless-wrapper: no decorated function, no global/nonlocal rebinding, no module-level container mutated by a function.",
+}
+for _p, _t in ADDENDA9.items():
+    ADDENDA8[_p] = (ADDENDA8.get(_p, "") + " " + _t).strip()
 for _p, _t in ADDENDA8.items():
     ADDENDA7[_p] = (ADDENDA7.get(_p, "") + " " + _t).strip()
 for _p, _t in ADDENDA7.items():
